@@ -1464,6 +1464,26 @@ where
 
 pub fn run_order_case(spec: &Spec, out: &mut dyn Write) -> GeomOut {
     let st = build(spec);
+    // C09: the score of a state does not depend on what was scored before on this thread
+    let hist = st.reshape_then_score();
+    let mut o = match &st {
+        St::Poly(s) => order_case(s, spec, out),
+        St::Mol(s) => order_case(s, spec, out),
+        St::Lj(s) => order_case(s, spec, out),
+    };
+    if let Some((a, b)) = hist {
+        let same = match (a, b) {
+            (Some(x), Some(y)) => x.to_bits() == y.to_bits() || (x.is_nan() && y.is_nan()),
+            (None, None) => true,
+            _ => false,
+        };
+        if !same {
+            o.findings.push(Finding { property: "C09", what: format!(
+                "a state that was scored, then given another shape, scores {:?}; the state rebuilt from its own JSON scores {:?} (the result depends on what ran before)", a, b) });
+        }
+    }
+    return o;
+    #[allow(unreachable_code)]
     match &st {
         St::Poly(s) => order_case(s, spec, out),
         St::Mol(s) => order_case(s, spec, out),
